@@ -387,3 +387,409 @@ PROPS["C10"] = dict(
     assumptions=ENGINE_ASSUMPTIONS + ["reference decoders and reference indexes as in C01",
                                       "the Standard's BOM sniff is the three-prefix test EF BB BF / FE FF / FF FE on the start of the stream"],
 )
+
+
+# ----------------------------------------------------------------------------------------------- C03
+CJK_ENC = ("Big5", "EUC-JP", "EUC-KR", "GBK", "Shift_JIS", "gb18030", "ISO-2022-JP")
+# 1024-wide BMP windows that contain a constant of some encoder's range tests / special cases
+SPECIAL_WINDOWS = [0x0000, 0x2000, 0x2400, 0x3000, 0x4E00, 0x5000, 0x9C00, 0xAC00, 0xD400, 0xE000, 0xE400, 0xE800, 0xF400, 0xF800, 0xFC00]
+
+
+def c03_jobs(tier, seed):
+    jl = []
+    q = tier == "quick"
+    rnd = random.Random(seed)
+    SRC = ("utf8", "utf16")
+
+    def add(enc, src, repl, base, lo, hi, before=0, after=0, kind=0, weight=20):
+        jl.append(J("se_h_c03_char", {0: E[enc], 1: src, 2: repl, 3: base, 4: lo, 5: hi, 6: before, 7: after, 8: kind},
+                    label="%s from %s repl=%d U+%04X..U+%04X neighbours=%d,%d sink=%s" % (enc, SRC[src], repl, base + lo, base + hi, before, after, ("slice", "Vec")[kind]),
+                    need=[9999], weight=weight, time_budget=900 if q else 3000))
+    # single-byte, x-user-defined and the UTF-8 output encodings: the whole BMP in one job, plus astral windows
+    for i in SINGLE + [E["x-user-defined"], E["UTF-8"], E["UTF-16LE"], E["UTF-16BE"], E["replacement"]]:
+        enc = ENC_NAMES[i]
+        confs = [(0, 0), (1, 1)] if q else [(s, r) for s in (0, 1) for r in (0, 1)]
+        if q and i in SINGLE and enc not in ("windows-1252", "windows-1253", "IBM866", "ISO-8859-8", "macintosh"):
+            confs = [rnd.choice([(0, 0), (1, 1), (0, 1), (1, 0)])]
+        for (s, r) in confs:
+            add(enc, s, r, 0, 0, 0xFFFF, weight=15)
+            add(enc, s, r, 0x10000, 0, 0x03FF, weight=3)
+            add(enc, s, r, 0x100000, 0xFC00, 0xFFFF, kind=1, weight=3)
+    for enc in CJK_ENC:
+        if q:
+            # (U+D800..U+DFFF holds no scalar values: those two windows are never chosen)
+            wins = sorted(set(SPECIAL_WINDOWS) | set(rnd.sample([w for w in range(0, 0x10000, 0x400) if not 0xD800 <= w < 0xE000], 6)))
+        else:
+            wins = [w for w in range(0, 0x10000, 0x400) if not 0xD800 <= w < 0xE000]
+        for k, w in enumerate(wins):
+            confs = [((k + j) % 2, j) for j in (0, 1)] if q else [(s, r) for s in (0, 1) for r in (0, 1)]
+            for (s, r) in confs:
+                add(enc, s, r, 0, w, w + 0x3FF, weight=40 if enc == "Big5" else 20)
+        # astral: plane 1 start, plane 2 (Big5 maps into it), last plane end, gb18030 four-byte range ends
+        planes = [(0x10000, 0, 0x3FF), (0x100000, 0xFC00, 0xFFFF)]
+        if enc == "Big5":
+            planes += [(0x20000, w, w + 0x3FF) for w in (range(0, 0x10000, 0x400) if not q else [0x0000, 0x0400] + rnd.sample(range(0x800, 0xB000, 0x400), 4))]
+        else:
+            planes += [(0x20000, 0, 0x3FF)]
+        for (b, lo, hi) in planes:
+            for (s, r) in ([(0, 0), (1, 1)] if q else [(s, r) for s in (0, 1) for r in (0, 1)]):
+                add(enc, s, r, b, lo, hi, weight=10)
+    # state transitions: neighbours before and after (ISO-2022-JP states; gb18030/GBK euro and four-byte forms)
+    nb = range(0, 12)
+    for enc in ("ISO-2022-JP",):
+        wsel = [0x3000, 0xFF00] if q else [0x0000, 0x2000, 0x3000, 0x4E00, 0x9C00, 0xE000, 0xFC00]
+        for w in wsel:
+            for before in nb:
+                for after in ((0, 1, 4, 5) if q else nb):
+                    if before == 0 and after == 0:
+                        continue
+                    s = (before + after) % 2
+                    add(enc, s, (before + w // 0x400) % 2, 0, w, w + (0xFF if q else 0x3FF), before, after, weight=12)
+    for enc in ("gb18030", "GBK", "Shift_JIS", "EUC-JP"):
+        for (before, after) in [(1, 8), (8, 1), (6, 6), (5, 10)]:
+            add(enc, before % 2, after % 2, 0, 0x2000, 0x23FF, before, after, weight=10)
+    # UTF-16 source with arbitrary units around the surrogate range
+    for enc in (ENC_NAMES if not q else ["windows-1252", "UTF-8", "Big5", "EUC-KR", "ISO-2022-JP", "gb18030", "Shift_JIS", "EUC-JP", "GBK", "x-user-defined"]):
+        for repl in (0, 1):
+            if enc in CJK_ENC:
+                # two symbolic units through the CJK table scans: windows around the edges of the surrogate ranges
+                for (a0, a1, b0, b1) in [(0xD7FE, 0xD802, 0xDBFE, 0xDC02), (0xDBFE, 0xDC02, 0xDFFE, 0xE001), (0xDBFE, 0xDC02, 0xD7FE, 0xD802)]:
+                    jl.append(J("se_h_c03_units", {0: E[enc], 2: repl, 4: a0, 5: a1, 6: b0, 7: b1, 9: 2},
+                                label="%s from utf16, 2 units U+%04X..%04X, U+%04X..%04X, repl=%d" % (enc, a0, a1, b0, b1, repl), need=[9999], weight=15,
+                                time_budget=900 if q else 3000))
+            else:
+                jl.append(J("se_h_c03_units", {0: E[enc], 2: repl, 4: 0xD7F0, 5: 0xE00F, 6: 0xD7F0, 7: 0xE00F, 9: 2},
+                            label="%s from utf16 units around the surrogate range, 2 units, repl=%d" % (enc, repl), need=[9999], weight=15,
+                            time_budget=900 if q else 3000))
+            jl.append(J("se_h_c03_units", {0: E[enc], 2: repl, 4: 0xD7F0, 5: 0xE00F, 6: 0, 7: 0xFFFF, 9: 1},
+                        label="%s from utf16 single unit around the surrogate range repl=%d" % (enc, repl), need=[9999], weight=5))
+    for j in jl:
+        j["small_index_fork"] = 64
+    return jl
+
+
+PROPS["C03"] = dict(
+    cfgs=["verif_c03"], level="model_checking", jobs=c03_jobs, need_global=[20, 21],
+    explanation=("The real Encoder of every encoding's output encoding is executed symbolically through the public API (from UTF-8 and from UTF-16, with "
+                 "and without replacement, slice and Vec sinks, last=true) on a text  [x] c [y]  whose character c = plane base + a fully symbolic "
+                 "16-bit value inside a window, optionally between concrete neighbour characters that force every ISO-2022-JP state transition. "
+                 "Its bytes, Unmappable(c) reports (with the source position), numeric character references, had_unmappables and the final return to "
+                 "ASCII are asserted equal to a transcription of the Standard's encoder algorithm (pointer selection rules precomputed from the "
+                 "regenerated indexes). A second harness feeds arbitrary UTF-16 code units around the surrogate range (lone, reversed, paired). "
+                 "Each mapped code point is its own path (the encoders' table scans fork per entry and the path condition then pins the character); "
+                 "all unmappable code points of a window share one path whose assertions z3 decides for the whole set at once."),
+    bounds=lambda tier: ("character windows of 1024 code points: %s; single-byte, x-user-defined and the UTF-8 output encodings: the whole BMP in one job plus the "
+                         "first window of plane 1 and the last of plane 16; ISO-2022-JP: 12 neighbour characters before/after (ASCII, U+00A5, U+203E, hiragana, "
+                         "kanji, unmappable astral, ESC, euro, half-width katakana, U+2212, backslash); UTF-16: all 1- and 2-unit sequences with units in "
+                         "U+D7F0..U+E00F (CJK encoders: two units in 5-wide windows around the four edges of the surrogate ranges)" % ("for each of the 7 CJK encoders the 15 windows containing a constant of some range test or special case plus 6 seed-chosen ones, alternating source form "
+                                             "and replacement mode; Big5 additionally 6 windows of plane 2" if tier == "quick"
+                                             else "for each of the 7 CJK encoders all 64 windows of the BMP and, for Big5, all 64 of plane 2, in all four source/mode combinations")),
+    outside=["texts longer than three characters", "code points outside the listed windows (quick tier)",
+             "content of the single-byte index tables and the gb18030 ranges table (trusted data)", "planes 3-15 except their first window for the CJK encoders"],
+    assumptions=ENGINE_ASSUMPTIONS + ["reference encoders in /verif/harness/refenc.rs are faithful transcriptions of the Encoding Standard",
+                                      "inverse indexes are computed by /verif/tools/gen_ref_index.py with the Standard's pointer-selection rules and cross-checked against tests/test_data/*_out*.txt"],
+)
+
+
+# ----------------------------------------------------------------------------------------------- C04
+def c04_jobs(tier, seed):
+    jl = []
+    q = tier == "quick"
+    rnd = random.Random(seed)
+    SRC = ("utf8", "utf16")
+
+    def add(enc, fa, fb, repl, base, lo, hi, before, after, kind, prefix, regime, weight=20):
+        mn = 14 if repl else 4
+        # A: two cuts + optional empty final call, large sink; B: one cut, symbolic per-call capacities min..min+2
+        # (3 calls); C: two cuts + empty final call at the fixed minimum
+        cmin, cmax, ncuts, el, ncalls = {"A": (40, 40, 2, 1, 1), "B": (mn, mn + 2, 1, 0, 2 if q else 3), "C": (mn, mn, 2, 1, 1)}[regime]
+        jl.append(J("se_h_c04_chunk", {0: E[enc], 1: fa, 2: repl, 3: base, 4: lo, 5: hi, 6: before, 7: after, 8: kind, 9: prefix, 10: fb,
+                                       11: ncuts, 12: cmin, 13: cmax, 14: ncalls, 15: el},
+                    label="%s whole=%s chunked=%s repl=%d U+%04X..U+%04X nb=%d,%d sink=%s prefix<=%d regime=%s" % (
+                        enc, SRC[fa], SRC[fb], repl, base + lo, base + hi, before, after, ("slice", "Vec")[kind], prefix, regime),
+                    need=[9999], weight=weight, small_index_fork=64, time_budget=900 if q else 3000))
+    W = 0x3F if q else 0x3FF          # window width - 1
+    # single-byte family (shared code): the pair-at-the-output-limit shape and BMP windows
+    sb = ["windows-1252", "windows-874", "x-user-defined"] + ([ENC_NAMES[rnd.choice(SINGLE)]] if q else [ENC_NAMES[i] for i in SINGLE])
+    for enc in dict.fromkeys(sb):
+        for repl in (0, 1):
+            for g in ("A", "B", "C"):
+                add(enc, 1, 1, repl, 0x10000, 0xF600, 0xF600 + 0xF, 0, 1, 0, 5, g)          # astral after an ASCII prefix, UTF-16
+                add(enc, 0, 1, repl, 0, 0x80, 0xFF, 1, 5, repl, 2, g)                      # Latin1 range, forms differ
+                add(enc, 1, 0, repl, 0, 0x2000, 0x2000 + W, 6, 0, 0, 0, g)
+    for enc in ("UTF-8", "UTF-16LE", "replacement"):
+        for g in ("A", "B", "C"):
+            add(enc, 0, 1, 0, 0, 0x07C0, 0x083F, 1, 6, 0, 2, g)
+            add(enc, 1, 0, 1, 0x10000, 0, W, 4, 1, 1, 0, g)
+    wins = {"Big5": [0x4E00, 0x2550], "EUC-KR": [0xAC00, 0x4E00], "Shift_JIS": [0x3040, 0xFF60, 0x2200], "EUC-JP": [0x3040, 0xFF60, 0x2200],
+            "GBK": [0x4E00, 0x20A0, 0xE780], "gb18030": [0x4E00, 0x20A0, 0xE780, 0x0080], "ISO-2022-JP": [0x3040, 0xFF60, 0x2200, 0x0000, 0x4E00]}
+    for enc, ws in wins.items():
+        if not q:
+            ws = sorted(set(ws) | set(range(0, 0x10000, 0x1000)))
+        for k, w in enumerate(ws):
+            nbs = [(1, 5), (4, 1), (2, 4), (6, 9)] if enc == "ISO-2022-JP" else [(1, 5), (4, 1)]
+            for (b, a) in (nbs if not q else nbs[:2 + (enc == "ISO-2022-JP")]):
+                for g in ("A", "B", "C"):
+                    repl = (k + b) % 2
+                    fa, fb = (0, 1) if (k + a) % 2 else (1, 0)
+                    add(enc, fa, fb, repl, 0, w, w + W, b, a, (k + b + a) % 2 if fb == 0 else 0, 0, g)
+        for g in ("A", "B", "C"):
+            add(enc, 1, 1, 0, 0x20000, 0, 0xF, 1, 1, 0, 3, g)          # astral from UTF-16 after an ASCII prefix
+    return jl
+
+
+PROPS["C04"] = dict(
+    cfgs=["verif_c04"], level="model_checking", jobs=c04_jobs, need_global=[30, 31, 33, 34, 35, 20, 21],
+    explanation=("The real Encoder is run twice on the same text - an ASCII prefix of symbolic length, optional concrete neighbours and one character that is fully "
+                 "symbolic within a window: once in a single call with a large sink, once cut at symbolic character boundaries (never inside a surrogate "
+                 "pair), optionally with an empty final call, with symbolic per-call capacities from the documented minimum (4 bytes; 14 when replacing) "
+                 "upwards, in the same or the other source form (UTF-8 vs UTF-16), slice or Vec sink. Bytes, Unmappable reports (positions when the source "
+                 "form is the same), had_unmappables and has_pending_state() must be equal. Only real code on both sides. z3 decides every branch and "
+                 "assertion per path."),
+    bounds=lambda tier: ("texts of up to 8 characters: 0..5 ASCII + [neighbour] + one symbolic character in a %d-wide window + [neighbour]; windows: %s; regimes A = two cuts "
+                         "+ optional empty final call with a large sink, B = one cut and symbolic per-call capacities min..min+2 (quick: two calls, thorough: three), C = two cuts + empty "
+                         "final call at the fixed minimum; source forms of the two runs equal and different; with/without replacement; slice and Vec sinks"
+                         % ((64, "2-5 per CJK encoder around its range-test constants, the Latin1 range and an astral window for the single-byte family (4 encodings)")
+                            if tier == "quick" else (1024, "every sixteenth 1024-window of the BMP plus the special ones per CJK encoder; all single-byte encodings"))),
+    outside=["texts with more than one symbolic character", "cuts inside a surrogate pair (excluded by the documented precondition)",
+             "capacities more than 2 above the minimum combined with two cuts"],
+    assumptions=ENGINE_ASSUMPTIONS + ["the single-call run of the same real encoder is the yardstick (its conformance is C03)",
+                                      "documented minimum capacities: 4 bytes without replacement, 14 bytes (NCR_EXTRA + one character) with replacement"],
+)
+
+
+# ----------------------------------------------------------------------------------------------- C12
+def c12_jobs(tier, seed):
+    jl = []
+    q = tier == "quick"
+    rnd = random.Random(seed)
+    W = 0xFF if q else 0x3FF
+
+    def add(enc, form, base, lo, hi, before, after, kind, cmin, cmax, weight=20):
+        jl.append(J("se_h_c12_back", {0: E[enc], 1: form, 3: base, 4: lo, 5: hi, 6: before, 7: after, 8: kind, 12: cmin, 13: cmax},
+                    label="%s from %s U+%04X..U+%04X nb=%d,%d sink=%s cap=%d..%d" % (enc, ("utf8", "utf16")[form], base + lo, base + hi, before, after,
+                                                                                     ("slice", "Vec")[kind], cmin, cmax),
+                    need=[9999], weight=weight, small_index_fork=64, time_budget=900 if q else 3000))
+    fold_wins = {"EUC-JP": [0x0080, 0x2000, 0x2200, 0xFF00], "Shift_JIS": [0x0080, 0x2000, 0x2200, 0xFF00],
+                 "ISO-2022-JP": [0x0000, 0x0080, 0x2000, 0x2200, 0xFF00, 0x3000, 0x4E00], "GBK": [0xE700, 0xE800, 0x2000, 0x4E00],
+                 "gb18030": [0xE700, 0xE800, 0x2000, 0x4E00, 0x0080], "Big5": [0x2500, 0x4E00, 0x5300], "EUC-KR": [0xAC00, 0x4E00]}
+    for enc, ws in fold_wins.items():
+        if not q:
+            ws = sorted(set(ws) | set(range(0, 0x10000, 0x800)))
+        nbs = [(0, 0), (1, 1), (1, 4), (4, 1), (2, 2), (9, 5), (5, 9), (6, 1)] if enc == "ISO-2022-JP" else [(0, 0), (1, 4), (4, 1), (5, 1)]
+        for k, w in enumerate(ws):
+            for j, (b, a) in enumerate(nbs if not q else nbs[:(5 if enc == "ISO-2022-JP" else 2)]):
+                add(enc, (k + j) % 2, 0, w, w + W, b, a, (k + j) % 2 if (k + j) % 2 == 0 else 0, 14, 16 if j % 2 == 0 else 14)
+        add(enc, 1, 0x10000, 0, 0xFF, 1, 1, 0, 14, 15)
+        add(enc, 0, 0x20000, 0, 0xFF, 4, 0, 1, 14, 14)
+    for i in ([E["windows-1252"], E["x-user-defined"], E["UTF-8"], E["UTF-16BE"], E["replacement"], rnd.choice(SINGLE)] if q else
+              SINGLE + [E["x-user-defined"], E["UTF-8"], E["UTF-16LE"], E["UTF-16BE"], E["replacement"]]):
+        enc = ENC_NAMES[i]
+        add(enc, 0, 0, 0, 0xFFFF, 1, 5, 0, 14, 16, weight=15)
+        add(enc, 1, 0, 0, 0xFFFF, 0, 1, 0, 14, 14, weight=15)
+        add(enc, 1, 0x10000, 0, 0xFF, 1, 0, 0, 14, 15, weight=5)
+    return jl
+
+
+PROPS["C12"] = dict(
+    cfgs=["verif_c12"], level="model_checking", jobs=c12_jobs, need_global=[30, 20, 21],
+    explanation=("The real Encoder (replacing methods, so that every character leaves a trace) encodes a text [x] c [y] with c fully symbolic in a window, cut at a "
+                 "symbolic character boundary with symbolic per-call capacities. After every encode call the bytes produced so far are decoded, as a complete "
+                 "stream, by the real decoder of the same encoding and must be accepted without error (a character split across calls would show as a "
+                 "dangling lead), and has_pending_state() must equal what a ten-line escape scanner derives from the emitted bytes. After the final call the "
+                 "encoder must be back in the ASCII state and decoding the complete output must give the input with unmappable characters as their numeric "
+                 "character references, modulo the Standard's documented folding set (written out in the harness). z3 decides every branch and assertion."),
+    bounds=lambda tier: ("three-character texts with one symbolic character in a %d-wide window; windows per encoder: those containing the folding set (U+00A5, U+203E, "
+                         "U+2212, half-width katakana, the 18 GB18030-2022 code points) and hanzi/kana/hangul samples%s; one symbolic cut; capacities 14..16; "
+                         "single-byte, x-user-defined and UTF-8 output encodings: the whole BMP" % ((256, "") if tier == "quick" else (1024, " plus every other 1024-window of the BMP"))),
+    outside=["texts with more than one symbolic character", "the without-replacement methods (covered for bytes by C03/C04)"],
+    assumptions=ENGINE_ASSUMPTIONS + ["the real decoder is the yardstick for 'decodes back' (its conformance is C01)",
+                                      "the folding set is the one named in the property: U+00A5/U+203E (EUC-JP, Shift_JIS), U+2212 (three Japanese encodings), half-width katakana (ISO-2022-JP), 18 GB18030-2022 PUA code points (GBK, gb18030)"],
+)
+
+
+# ----------------------------------------------------------------------------------------------- C08 / C09 (shared shapes)
+def dec_shapes(tier, seed):
+    """(encoding, nmax, [(lo, hi)...], [prefix ids]) for the decoder-side history harnesses"""
+    q = tier == "quick"
+    rnd = random.Random(seed)
+    out = []
+    singles = ["windows-1252", "windows-874", ENC_NAMES[rnd.choice(SINGLE)]] if q else [ENC_NAMES[i] for i in SINGLE]
+    for enc in dict.fromkeys(singles + ["x-user-defined", "replacement"]):
+        out.append((enc, 3, [(0, 255)], [0]))
+    out.append(("UTF-8", 3 if q else 4, UTF8_RANGES, [0]))
+    out.append(("UTF-16LE", 4, Q_RANGES, [0]))
+    out.append(("UTF-16BE", 4 if not q else 3, Q_RANGES if not q else [(0xD8, 0xDF), (0, 0xD7)], [0]))
+    for enc in ("Big5", "EUC-KR", "Shift_JIS", "EUC-JP", "GBK", "gb18030"):
+        shards = lead_shards(enc, 16)
+        pick = [shards[0], shards[-1]] + rnd.sample(shards[1:-1], 2) if q else shards
+        out.append((enc, 3, pick, [0]))
+    out.append(("ISO-2022-JP", 3, [(0, 0x1A), (0x1B, 0x1B), (0x1C, 0xFF)], [0]))
+    out.append(("ISO-2022-JP", 2 if q else 3, [(0, 255)], [4, 5, 8, 13] if q else list(range(1, 15))))
+    return out
+
+
+def enc_shapes(tier, seed):
+    """(encoding, plane base, window lo, neighbours before/after, ascii prefix max)"""
+    q = tier == "quick"
+    rnd = random.Random(seed)
+    W = 0x3F if q else 0x3FF
+    out = []
+    for enc in dict.fromkeys(["windows-1252", "x-user-defined", ENC_NAMES[rnd.choice(SINGLE)]] if q else [ENC_NAMES[i] for i in SINGLE] + ["x-user-defined"]):
+        out += [(enc, 0x10000, 0xF600, 0xF60F, 0, 1, 5), (enc, 0, 0x80, 0xFF, 1, 5, 2), (enc, 0, 0x2000, 0x2000 + W, 6, 0, 0)]
+    for enc in ("UTF-8", "UTF-16LE", "replacement"):
+        out += [(enc, 0, 0x07C0, 0x083F, 1, 6, 2), (enc, 0x10000, 0, W, 4, 1, 0)]
+    wins = {"Big5": [0x4E00, 0x2550], "EUC-KR": [0xAC00, 0x4E00], "Shift_JIS": [0x3040, 0xFF60, 0x2200], "EUC-JP": [0x3040, 0xFF60, 0x2200],
+            "GBK": [0x4E00, 0x20A0, 0xE780], "gb18030": [0x4E00, 0x20A0, 0xE780, 0x0080], "ISO-2022-JP": [0x3040, 0xFF60, 0x2200, 0x0000, 0x4E00]}
+    for enc, ws in wins.items():
+        if not q:
+            ws = sorted(set(ws) | set(range(0, 0x10000, 0x1000)))
+        nbs = [(1, 5), (4, 1), (2, 4), (6, 9), (5, 5)] if enc == "ISO-2022-JP" else [(1, 5), (4, 1)]
+        for w in ws:
+            for (b, a) in nbs:
+                out.append((enc, 0, w, w + W, b, a, 1))
+        out.append((enc, 0x20000, 0, 0xF, 1, 1, 3))
+    return out
+
+
+def c08_jobs(tier, seed):
+    jl = []
+    q = tier == "quick"
+    SINKS = ("utf16", "utf8", "str", "String")
+    k = 0
+    for (enc, nmax, ranges, pres) in dec_shapes(tier, seed):
+        for pre in pres:
+            for (lo, hi) in ranges:
+                confs = [(0, 0), (1, 1)] + ([(2, 0), (3, 1)][k % 2:k % 2 + 1]) if q else [(s, r) for s in range(4) for r in (0, 1)]
+                k += 1
+                for (s, r) in confs:
+                    mn = 2 if s == 0 else 4
+                    for cap in ((mn,) if q else (mn, mn + 1)):
+                        for bom in ((0,) if (q and not (enc in ("UTF-8", "UTF-16LE", "windows-874") and lo == 0)) else (0, 2)):
+                            jl.append(J("se_h_c08_dec", {0: E[enc], 1: 0 if lo == 0 else 1, 2: nmax, 3: s, 4: r, 5: lo, 6: hi, 7: pre, 8: bom, 9: cap,
+                                                         11: 1 if q else 2, 12: 1},
+                                        label="decode %s n<=%d first=%02X..%02X prefix=%d sink=%s repl=%d bom=%d cap=%d" % (enc, nmax, lo, hi, pre, SINKS[s], r, bom, cap),
+                                        need=[9999], weight=30, time_budget=900 if q else 3000))
+    for i, (enc, base, lo, hi, b, a, pfx) in enumerate(enc_shapes(tier, seed)):
+        for repl in (0, 1):
+            mn = 14 if repl else 4
+            for cap in ((mn,) if q else (mn, mn + 1)):
+                form = (i + repl) % 2
+                jl.append(J("se_h_c08_enc", {0: E[enc], 1: form, 2: repl, 3: base, 4: lo, 5: hi, 6: b, 7: a, 8: (i % 2) if form == 0 else 0, 9: pfx,
+                                             11: 2, 12: cap, 15: 1},
+                            label="encode %s from %s repl=%d U+%04X..U+%04X nb=%d,%d prefix<=%d cap=%d" % (enc, ("utf8", "utf16")[form], repl, base + lo, base + hi, b, a, pfx, cap),
+                            need=[9999], weight=15, small_index_fork=64, time_budget=900 if q else 3000))
+    return jl
+
+
+PROPS["C08"] = dict(
+    cfgs=["verif_c08"], level="model_checking", jobs=c08_jobs, need_global=[30, 36],
+    explanation=("The documented caller loop (keep calling, re-pushing unconsumed input, until InputEmpty) is executed symbolically around the real Decoder and "
+                 "Encoder at the documented minimum output capacity (decoding: 4 bytes of UTF-8 / 2 units of UTF-16; encoding: 4 bytes, 14 with replacement) "
+                 "on symbolic streams/texts with symbolic cut points and an optional empty final call. Inside the driver every call that does not end the "
+                 "stream is asserted to consume input or produce output, and the number of calls is asserted to stay within 4*(input units)+16, so that "
+                 "a livelock shows up as a violated assertion on a finite path rather than as a timeout; the per-path instruction budget is the back-stop "
+                 "and is reported as inconclusive. z3 decides every branch and assertion."),
+    bounds=lambda tier: ("decoders: streams of N<=3 symbolic bytes (UTF-16LE/BE 4; ISO-2022-JP also after concrete escape prefixes), %s, capacity = minimum%s, BOM modes off and sniffing; "
+                         "encoders: 0..5 ASCII + [neighbour] + one symbolic character in a window + [neighbour], two symbolic cuts + optional empty final call, capacity = minimum%s, "
+                         "both source forms, slice and Vec sinks, with and without replacement"
+                         % (("one symbolic cut + optional empty final call; sinks UTF-16, UTF-8 and alternately &mut str / String", "", "") if tier == "quick"
+                            else ("two symbolic cuts + optional empty final call; all four sinks", " and minimum+1", " and minimum+1"))),
+    outside=["streams/texts longer than the bounds", "capacities above minimum+1 (progress there follows from fewer OutputFull returns, not checked here)"],
+    assumptions=ENGINE_ASSUMPTIONS + ["liveness bound taken from the property: calls <= 4*(input units)+16"],
+)
+
+
+def c09_jobs(tier, seed):
+    jl = []
+    q = tier == "quick"
+    SINKS = ("utf16", "utf8", "str", "String")
+    k = 0
+    for (enc, nmax, ranges, pres) in dec_shapes(tier, seed):
+        for pre in pres:
+            for (lo, hi) in ranges:
+                for s in ((k % 2,) if q else (0, 1, 2, 3)):
+                    for cap in ((56, 2 if s == 0 else 4) if not q else ((56,) if k % 3 else (2 if s == 0 else 4,))):
+                        for bom in ((0,) if (q and k % 4) else (0, 2)):
+                            jl.append(J("se_h_c09_dec", {0: E[enc], 1: 0 if lo == 0 else 1, 2: nmax, 3: s, 5: lo, 6: hi, 7: pre, 8: bom, 9: cap, 11: 1 if q else 2},
+                                        label="decode %s n<=%d first=%02X..%02X prefix=%d sink=%s bom=%d cap(replacing run)=%d" % (enc, nmax, lo, hi, pre, SINKS[s], bom, cap),
+                                        need=[9999], weight=30, time_budget=900 if q else 3000))
+                k += 1
+    for i, (enc, base, lo, hi, b, a, pfx) in enumerate(enc_shapes(tier, seed)):
+        form = i % 2
+        for cap in ((60, 14) if not q else ((60,) if i % 2 else (14,))):
+            jl.append(J("se_h_c09_enc", {0: E[enc], 1: form, 3: base, 4: lo, 5: hi, 6: b, 7: a, 8: 0, 9: pfx, 11: 2, 12: cap},
+                        label="encode %s from %s U+%04X..U+%04X nb=%d,%d prefix<=%d cap(replacing run)=%d" % (enc, ("utf8", "utf16")[form], base + lo, base + hi, b, a, pfx, cap),
+                        need=[9999], weight=15, small_index_fork=64, time_budget=900 if q else 3000))
+    return jl
+
+
+PROPS["C09"] = dict(
+    cfgs=["verif_c09"], level="model_checking", jobs=c09_jobs, need_global=[20, 30],
+    explanation=("Twin real converters are fed the same symbolic history (same stream/text, same symbolic cut points): one through the replacing method, the other "
+                 "through the *_without_replacement method plus the documented manual recovery - append one U+FFFD per Malformed result, resp. '&#' decimal ';' "
+                 "per Unmappable result, and re-push the rest. The concatenated outputs are asserted equal, and for every pushed buffer the had_errors / "
+                 "had_unmappables boolean of the replacing call is asserted true exactly if a substitution happened for that buffer. Only real code on both "
+                 "sides. z3 decides every branch and assertion."),
+    bounds=lambda tier: ("decoders: streams of N<=3 symbolic bytes (UTF-16 4; ISO-2022-JP also after escape prefixes), %s; replacing run with a large sink and with the "
+                         "documented minimum (which changes where its calls end), BOM modes off and sniffing; encoders: 0..5 ASCII + [neighbour] + one symbolic "
+                         "character in a window + [neighbour], two symbolic cuts, both source forms, replacing run with 60 and 14 bytes"
+                         % ("one symbolic cut, sinks UTF-16/UTF-8 alternating" if tier == "quick" else "two symbolic cuts, all four sinks")),
+    outside=["streams/texts longer than the bounds", "Vec sink of the encoder (C04, C08)"],
+    assumptions=ENGINE_ASSUMPTIONS + ["the manual recovery procedure is the one in the documentation of DecoderResult::Malformed and EncoderResult::Unmappable"],
+)
+
+
+
+# ----------------------------------------------------------------------------------------------- C07
+def c07_jobs(tier, seed):
+    jl = []
+    q = tier == "quick"
+    rnd = random.Random(seed)
+    PAIR = ("utf8 with replacement", "utf8 without replacement", "utf16 with replacement", "utf16 without replacement")
+    for (enc, nmax, ranges, pres) in dec_shapes(tier, seed):
+        cjk = enc in ("Big5", "EUC-KR", "Shift_JIS", "EUC-JP", "GBK", "gb18030")
+        pmax = 2 if (cjk or enc in ("UTF-8", "ISO-2022-JP")) else 3
+        rest = 2 if q else 3
+        for pre in pres:
+            for k, (lo, hi) in enumerate(ranges):
+                boms = (0, 2) if (lo == 0 or (lo <= 0xEF <= hi) or (lo <= 0xFE <= hi)) and not (q and cjk and k > 1) else (0,)
+                for bom in boms:
+                    for pairing in ((k % 4, (k + 2) % 4) if q else range(4)):
+                        jl.append(J("se_h_c07_dec", {0: E[enc], 1: pmax if pre == 0 else 1, 2: rest, 3: pairing, 5: lo, 6: hi, 7: pre, 8: bom, 9: 2},
+                                    label="decode %s prefix<=%d (first %02X..%02X, escape prefix %d) then n<=%d bytes, %s, bom=%d" % (enc, pmax, lo, hi, pre, rest, PAIR[pairing], bom),
+                                    need=[9999], weight=30, time_budget=900 if q else 3000))
+    for i, (enc, base, lo, hi, b, a, pfx) in enumerate(enc_shapes(tier, seed)):
+        for pairing in (0, 1):
+            form = (i + pairing) % 2
+            jl.append(J("se_h_c07_enc", {0: E[enc], 1: form, 2: pairing, 3: base, 4: lo, 5: hi, 6: b, 7: a, 9: 2},
+                        label="encode %s from %s %s U+%04X..U+%04X state after neighbour %d, then neighbour %d" % (
+                            enc, ("utf8", "utf16")[form], ("without replacement", "if no unmappables")[pairing], base + lo, base + hi, b, a),
+                        need=[9999], weight=10, small_index_fork=64, time_budget=900 if q else 3000))
+    # overflow clause: fully symbolic 64-bit lengths, every query, every encoding family, life-cycle arms via BOM mode / prefixes
+    fam = ["windows-1252", "UTF-8", "UTF-16LE", "UTF-16BE", "Big5", "EUC-JP", "EUC-KR", "GBK", "gb18030", "Shift_JIS", "ISO-2022-JP", "replacement", "x-user-defined"]
+    for enc in (fam if q else ENC_NAMES):
+        for which in range(7):
+            for (pre, bom) in ([(0, 0), (0, 2)] if which < 3 else [(0, 0)]):
+                jl.append(J("se_h_c07_overflow", {0: E[enc], 1: which, 7: pre, 8: bom},
+                            label="%s query %d on symbolic 64-bit lengths a<=b, bom=%d" % (enc, which, bom), need=[9999], weight=5, time_budget=600))
+    return jl
+
+
+PROPS["C07"] = dict(
+    cfgs=["verif_c07"], level="model_checking", jobs=c07_jobs, need_global=[40, 41, 42, 43, 50, 51],
+    explanation=("Decoder: a symbolic prefix pushed with last=false in one or two calls (symbolic cut; BOM modes off and sniffing, so that the life-cycle arms with "
+                 "withheld BOM bytes are entered; ISO-2022-JP also after concrete escape prefixes) brings the real decoder into an arbitrary reachable state; then "
+                 "q = max_utf8_buffer_length / max_utf8_buffer_length_without_replacement / max_utf16_buffer_length (n) is asked on that very decoder and n more "
+                 "symbolic bytes are decoded, with a symbolic `last`, into a destination of exactly q units: no call may return OutputFull (for the UTF-16 query "
+                 "the caller's U+FFFD per error is counted). Encoder: after a neighbour character that sets the ISO-2022-JP state, q = max_buffer_length_from_* (units) "
+                 "and the symbolic character plus a neighbour are encoded into exactly q bytes: never OutputFull (if_no_unmappables: whenever had_unmappables is "
+                 "false). Overflow clause: each of the seven queries is executed on two fully symbolic 64-bit lengths a <= b and must return None or values that "
+                 "did not wrap (monotone, and not below half the length). z3 decides every branch and assertion."),
+    bounds=lambda tier: ("decoder prefixes of <=2 symbolic bytes for the multi-byte encodings (<=3 otherwise), n <= %d further symbolic bytes, all four query/convert pairings%s; "
+                         "encoder: one symbolic character in a window between two neighbours, both source forms, both query kinds; overflow: lengths are unrestricted "
+                         "64-bit values, %s" % ((2, " (two per shard in the quick tier)", "13 encoding families") if tier == "quick" else (3, "", "all 40 encodings"))),
+    outside=["prefixes longer than the bounds (the argument for sufficiency is that no decoder keeps more than 3 pending bytes, ISO-2022-JP 5 with its escape prefixes)",
+             "real buffers near usize::MAX (only the queries are evaluated there)"],
+    assumptions=ENGINE_ASSUMPTIONS + ["'no unmappable' is expressed as: the replacing call reported had_unmappables == false"],
+)
